@@ -57,7 +57,11 @@ def run(ctx):
         r.check('rows', len(rows) == 6, site, built=len(rows), expected='{host missing?} x {amqp, amqps, other}')
         for x in rows:
             miss = x.conds[0] == (NOHOST, True)
-            sch = x.conds[1][1]
+            present = x.conds[:2] == [('url::Url::has_host(url)', True), ('(url::Url::host_str(url) == Some(""))', False)]
+            schs = [c[1] for c in x.conds if c[0] == 'url::Url::scheme(url)']
+            if not r.check('row:%s' % '&'.join(x.cond_strs()), (miss or present) and len(schs) == 1 and isinstance(schs[0], str), site, built=x.cond_strs(), expected='{host missing or empty | host present} x scheme'):
+                continue
+            sch = schs[0]
             key = '%s:%s' % ('nohost' if miss else 'host', sch.strip('"'))
             sets = [e for e in x.effects if e.startswith('url::Url::set_host(')]
             r.check(key + ':host-default', (sets == ['url::Url::set_host(url, Some("localhost"))']) if miss else (sets == []), site, built=sets,
@@ -69,8 +73,7 @@ def run(ctx):
                 r.check(key + ':port', ports == ['url::Url::set_port(url, Some(std::option::Option::unwrap_or(url::Url::port(url), 5671)))'] and x.value_str() == 'Ok(%sScheme::Amqps)' % U, site, built=(ports, x.value_str()))
             else:
                 r.check(key + ':invalid-scheme', sch == '_' and x.value_str() == 'errors::InvalidUrlSchemeSnafu::fail(errors::InvalidUrlSchemeSnafu{url: url})' and not ports, site, built=(sch, x.value_str()))
-        r.check('host-condition', all(x.conds[0][0] == NOHOST for x in rows), site, built=rows[0].conds[0][0] if rows else None, expected=NOHOST)
-        r.check('scheme-scrutinee', all(x.conds[1][0] == 'url::Url::scheme(url)' for x in rows), site)
+        r.check('host-condition', len([x for x in rows if x.conds[0] == (NOHOST, True)]) == 3, site, built=rows[0].conds[0][0] if rows else None, expected=NOHOST)
         # decode: ordered script
         scr, evs, ret = A.fn_script(ctx, U + 'decode')
         site = ctx.site(U + 'decode')
